@@ -485,7 +485,7 @@ class Execution:
         """The heartbeat thread of every current holder renews once (an environment step)."""
         for lp_ in list(self.env.heartbeats):
             if lp_.is_locked:
-                who = self.env.flocks.get(lp_.key)
+                who = getattr(lp_, "_verif_owner", None) or self.env.flocks.get(lp_.key)
                 lp_._renew_once()
                 if who is not None:
                     self.env.sched.emit({"k": "Heartbeat", "a": "env", "who": who, "ok": bool(lp_.is_locked)})
